@@ -161,44 +161,30 @@ theorem findLabel_exists (a : BinArchive) (l : Str) (x : Nat) (h : (x, l) ∈ (c
     have : (q.1, l) ∈ (contentOf a).labels := by rw [← hql]; exact hq
     exact hm.2 q.1 ((mem_candidates a l q.1).mpr this)
 
-/-! ### byte-by-byte reads -/
+/-! ### `read_bytes` of the stream reader -/
 
-theorem readU8_ok (a : BinArchive) (s : Nat) (h : s < a.data.length) :
-    Reader.readU8 a ⟨s⟩ = .ok ((a.data.getD s 0).toNat, ⟨s + 1⟩) := by
-  have : ¬ s ≥ a.data.length := by omega
-  simp [Reader.readU8, Reader.step, BinArchive.readU8, validateAddress, BinArchive.size, this]
+theorem readBytes_ok (a : BinArchive) (n s : Nat) (hn : 0 < n) (h : s + n ≤ a.data.length)
+    (h64 : s + n < 2 ^ 64) :
+    readerReadBytes a ⟨s⟩ n = .ok ((a.data.drop s).take n, ⟨s + n⟩) := by
+  have h0 : n ≠ 0 := by omega
+  have h1 : ¬ s ≥ a.data.length := by omega
+  have h2 : ¬ s + n ≥ 2 ^ 64 := by omega
+  have h3 : ¬ s + n > a.data.length := by omega
+  simp [readerReadBytes, h0, BinArchive.readBytes, validateRange, validateAddress, BinArchive.size,
+    h1, h2, h3, slice]
 
-theorem readU8_err (a : BinArchive) (s : Nat) (h : a.data.length ≤ s) :
-    Reader.readU8 a ⟨s⟩ = .err .OutOfBounds := by
-  simp [Reader.readU8, Reader.step, BinArchive.readU8, validateAddress, BinArchive.size, h]
+theorem readBytes_zero (a : BinArchive) (s : Nat) : readerReadBytes a ⟨s⟩ 0 = .ok ([], ⟨s⟩) := rfl
 
-theorem readBytes_ok (a : BinArchive) : ∀ (n s : Nat), s + n ≤ a.data.length →
-    Reader.readBytes a ⟨s⟩ n = .ok ((a.data.drop s).take n, ⟨s + n⟩) := by
-  intro n
-  induction n with
-  | zero => intro s _; simp [Reader.readBytes]
-  | succ n ih =>
-    intro s h
-    have hs : s < a.data.length := by omega
-    simp only [Reader.readBytes, readU8_ok a s hs, ih (s + 1) (by omega)]
-    have hd : a.data.drop s = a.data[s] :: a.data.drop (s + 1) := List.drop_eq_getElem_cons hs
-    have hg : a.data.getD s 0 = a.data[s] := by simp [List.getD_eq_getElem?_getD, hs]
-    rw [hd, hg, List.take_succ_cons]
-    have : s + 1 + n = s + (n + 1) := by omega
-    simp [this]
-
-theorem readBytes_zero (a : BinArchive) (s : Nat) : Reader.readBytes a ⟨s⟩ 0 = .ok ([], ⟨s⟩) := rfl
-
-theorem readBytes_err (a : BinArchive) : ∀ (n s : Nat), 0 < n → a.data.length < s + n →
-    Reader.readBytes a ⟨s⟩ n = .err .OutOfBounds := by
-  intro n
-  induction n with
-  | zero => intro s h; omega
-  | succ n ih =>
-    intro s _ h
-    by_cases hs : s < a.data.length
-    · simp only [Reader.readBytes, readU8_ok a s hs, ih (s + 1) (by omega) (by omega)]
-    · simp only [Reader.readBytes, readU8_err a s (by omega)]
+theorem readBytes_err (a : BinArchive) (n s : Nat) (hn : 0 < n) (h : a.data.length < s + n) :
+    readerReadBytes a ⟨s⟩ n = .err .OutOfBounds := by
+  have h0 : n ≠ 0 := by omega
+  by_cases h1 : s ≥ a.data.length
+  · simp [readerReadBytes, h0, BinArchive.readBytes, validateRange, validateAddress, BinArchive.size, h1]
+  · by_cases h2 : s + n ≥ 2 ^ 64
+    · simp [readerReadBytes, h0, BinArchive.readBytes, validateRange, validateAddress, BinArchive.size, h1, h2]
+    · have h3 : s + n > a.data.length := h
+      simp [readerReadBytes, h0, BinArchive.readBytes, validateRange, validateAddress, BinArchive.size,
+        h1, h2, h3]
 
 /-! ### the record table -/
 
@@ -270,6 +256,19 @@ theorem recsAt_of_forall (a : BinArchive) (ia : Nat) : ∀ (rs : List RecD) (k :
       (P := fun i (r : RecD) => RecordAt (contentOf a) ia i r.1 r.2.1 r.2.2) h
     exact ⟨h0, ih (k + 1) hrest⟩
 
+theorem recsAt_bounded (a : BinArchive) (ia : Nat) : ∀ (rs : List RecD) (k : Nat), RecsAt a ia k rs →
+    ∀ r ∈ rs, r.2.1 < 2 ^ 32 ∧ r.2.2 < 2 ^ 32 := by
+  intro rs
+  induction rs with
+  | nil => intro k _ r hr; simp at hr
+  | cons x xs ih =>
+    intro k h r hr
+    obtain ⟨h0, hrest⟩ := h
+    simp only [List.mem_cons] at hr
+    rcases hr with rfl | hr
+    · exact ⟨u32le_lt h0.2.2.1, u32le_lt h0.2.2.2⟩
+    · exact ih (k + 1) hrest r hr
+
 /-- The metadata loop over a readable prefix `rs` of the table, followed by `n` more records. -/
 theorem readRecords_prefix (p : Profile) (a : BinArchive) (hle : a.endian = .little)
     (hnd : (a.text.map (·.1)).Nodup) (pad : Nat) (hpad : pad ≤ 0x60) (ia : Nat) :
@@ -309,11 +308,17 @@ theorem readRecords_prefix (p : Profile) (a : BinArchive) (hle : a.endian = .lit
 def InRange (a : BinArchive) (pad : Nat) (r : RecD) : Prop :=
   r.2.1 = 0 ∨ r.2.2 + pad + r.2.1 ≤ a.data.length
 
-theorem readBytes_inRange (a : BinArchive) (s n : Nat) (h : n = 0 ∨ s + n ≤ a.data.length) :
-    ∃ r', Reader.readBytes a ⟨s⟩ n = .ok ((a.data.drop s).take n, r') := by
-  rcases h with rfl | h
-  · exact ⟨⟨s⟩, by simp [readBytes_zero]⟩
-  · exact ⟨_, readBytes_ok a n s h⟩
+/-- Size and offset are 32-bit values (they were read from `u32` cells). -/
+def Bounded (r : RecD) : Prop := r.2.1 < 2 ^ 32 ∧ r.2.2 < 2 ^ 32
+
+theorem readBytes_inRange (a : BinArchive) (s n : Nat) (h : n = 0 ∨ s + n ≤ a.data.length)
+    (h64 : s + n < 2 ^ 64) :
+    ∃ r', readerReadBytes a ⟨s⟩ n = .ok ((a.data.drop s).take n, r') := by
+  by_cases hz : n = 0
+  · subst hz; exact ⟨⟨s⟩, by simp [readBytes_zero]⟩
+  · rcases h with h | h
+    · exact absurd h hz
+    · exact ⟨_, readBytes_ok a n s (by omega) h h64⟩
 
 theorem insert_fresh (m : UMap Str Bytes) (k : Str) (v : Bytes) (h : k ∉ m.map (·.1)) :
     UMap.insert m k v = m ++ [(k, v)] := by
@@ -323,38 +328,43 @@ theorem insert_fresh (m : UMap Str Bytes) (k : Str) (v : Bytes) (h : k ∉ m.map
     exact List.mem_map.mpr ⟨q, hq, rfl⟩
   simp [this]
 
-theorem extract_ok (a : BinArchive) (pad ia : Nat) : ∀ (rs : List RecD) (k : Nat) (acc : UMap Str Bytes),
-    (∀ r ∈ rs, InRange a pad r) → (acc.map (·.1) ++ rs.map (·.1)).Nodup →
+theorem extract_ok (a : BinArchive) (pad ia : Nat) (hpad : pad ≤ 0x60) :
+    ∀ (rs : List RecD) (k : Nat) (acc : UMap Str Bytes),
+    (∀ r ∈ rs, InRange a pad r) → (∀ r ∈ rs, Bounded r) → (acc.map (·.1) ++ rs.map (·.1)).Nodup →
     extract a (entriesR a pad ia k rs) acc =
       .ok (acc ++ rs.map (fun r => (r.1, (a.data.drop (r.2.2 + pad)).take r.2.1))) := by
   intro rs
   induction rs with
-  | nil => intro k acc _ _; simp [entriesR, extract]
+  | nil => intro k acc _ _ _; simp [entriesR, extract]
   | cons r rs ih =>
-    intro k acc hin hnd
-    obtain ⟨r', hrb⟩ := readBytes_inRange a (r.2.2 + pad) r.2.1 (hin r (by simp))
+    intro k acc hin hbd hnd
+    obtain ⟨hb1, hb2⟩ := hbd r (by simp)
+    obtain ⟨r', hrb⟩ := readBytes_inRange a (r.2.2 + pad) r.2.1 (hin r (by simp)) (by omega)
     have hfresh : r.1 ∉ acc.map (·.1) := by
       intro hm
       rw [List.nodup_append] at hnd
       exact hnd.2.2 _ hm _ (by simp) rfl
     simp only [entriesR, extract, hrb, insert_fresh acc r.1 _ hfresh]
-    rw [ih (k + 1) _ (fun x hx => hin x (by simp [hx])) (by simpa [List.append_assoc] using hnd)]
+    rw [ih (k + 1) _ (fun x hx => hin x (by simp [hx])) (fun x hx => hbd x (by simp [hx]))
+      (by simpa [List.append_assoc] using hnd)]
     simp [List.append_assoc]
 
-theorem extract_err (a : BinArchive) (pad ia : Nat) : ∀ (pre : List RecD) (k : Nat) (acc : UMap Str Bytes)
-    (r : RecD) (post : List RecD), (∀ r' ∈ pre, InRange a pad r') → 0 < r.2.1 →
+theorem extract_err (a : BinArchive) (pad ia : Nat) (hpad : pad ≤ 0x60) :
+    ∀ (pre : List RecD) (k : Nat) (acc : UMap Str Bytes)
+    (r : RecD) (post : List RecD), (∀ r' ∈ pre, InRange a pad r') → (∀ r' ∈ pre, Bounded r') → 0 < r.2.1 →
     a.data.length < r.2.2 + pad + r.2.1 →
     extract a (entriesR a pad ia k (pre ++ r :: post)) acc = .err .OutOfBounds := by
   intro pre
   induction pre with
   | nil =>
-    intro k acc r post _ hpos hout
+    intro k acc r post _ _ hpos hout
     simp only [List.nil_append, entriesR, extract, readBytes_err a r.2.1 (r.2.2 + pad) hpos hout]
   | cons x xs ih =>
-    intro k acc r post hin hpos hout
-    obtain ⟨r', hrb⟩ := readBytes_inRange a (x.2.2 + pad) x.2.1 (hin x (by simp))
+    intro k acc r post hin hbd hpos hout
+    obtain ⟨hb1, hb2⟩ := hbd x (by simp)
+    obtain ⟨r', hrb⟩ := readBytes_inRange a (x.2.2 + pad) x.2.1 (hin x (by simp)) (by omega)
     simp only [List.cons_append, entriesR, extract, hrb]
-    exact ih (k + 1) _ r post (fun y hy => hin y (by simp [hy])) hpos hout
+    exact ih (k + 1) _ r post (fun y hy => hin y (by simp [hy])) (fun y hy => hbd y (by simp [hy])) hpos hout
 
 /-! ### `fromArchive` over a readable table -/
 
@@ -557,29 +567,33 @@ theorem readRecords_total (p : Profile) (a : BinArchive) (pad : Nat) (hpad : pad
     · simp
     · rename_i h; exact absurd h (readRecord_total p a pad hpad r)
 
-theorem readBytes_total (a : BinArchive) : ∀ n r, Reader.readBytes a r n ≠ .panic := by
-  intro n
-  induction n with
-  | zero => intro r; simp [Reader.readBytes]
-  | succ n ih =>
-    intro r
-    unfold Reader.readBytes
-    have hu8 : a.readU8 r.pos ≠ .panic := by
-      unfold BinArchive.readU8 validateAddress
-      by_cases h : r.pos ≥ a.size <;> simp [h]
-    have hu : Reader.readU8 a r ≠ .panic := by
-      unfold Reader.readU8 Reader.step
-      split
-      · simp
-      · simp
-      · rename_i h; exact absurd h hu8
+theorem readBytes_total (a : BinArchive) (n : Nat) (r : Reader) : readerReadBytes a r n ≠ .panic := by
+  unfold readerReadBytes
+  have hva : ∀ x y b, validateAddress x y b ≠ .panic := by
+    intro x y b; unfold validateAddress; split <;> simp
+  have hvr : validateRange r.pos n a.size ≠ .panic := by
+    unfold validateRange
     split
     · split
       · simp
-      · simp
-      · rename_i h; exact absurd h (ih _)
+      · split
+        · simp
+        · simp
+        · rename_i h; exact absurd h (hva _ _ _)
     · simp
-    · rename_i h; exact absurd h hu
+    · rename_i h; exact absurd h (hva _ _ _)
+  have hrb : a.readBytes r.pos n ≠ .panic := by
+    unfold BinArchive.readBytes
+    split
+    · simp
+    · simp
+    · rename_i h; exact absurd h hvr
+  split
+  · simp
+  · split
+    · simp
+    · simp
+    · rename_i h; exact absurd h hrb
 
 theorem extract_total (a : BinArchive) : ∀ es acc, extract a es acc ≠ .panic := by
   intro es
